@@ -25,7 +25,13 @@
 (*   Apbp::SetSemaphore     = SemSetA (acquire the recursive mutex, or in the bits, compute    *)
 (*                            new_signal) ; handler WITH THE MUTEX HELD ; SemSetC (update the  *)
 (*                            master signal, release)                                          *)
-(*   DataChannel::SetDisableInterrupt = SetDis: NO LOCK in the pinned code (defect D7)         *)
+(*   Apbp::MaskSemaphore    = SemMaskA (acquire the recursive mutex, store the mask, compute   *)
+(*                            new_signal) ; handler WITH THE MUTEX HELD, ON THE CALLING THREAD, *)
+(*                            when the signal rises ; SemMaskC (master signal, release)         *)
+(*                            (repaired in bf7856c; before that it only stored the mask)        *)
+(*   DataChannel::SetDisableInterrupt = SetDis: takes the channel mutex since 2b7c59d; the      *)
+(*                            code as first pinned had NO LOCK there (defect D7, kept behind    *)
+(*                            FixedDisableIrqLock = FALSE in MC_ApbpConc_pinned.cfg)            *)
 (*   MMIO writes of ICU::vector_*     = SetVec: plain stores, no lock (read by Trigger under   *)
 (*                            the ICU mutex on whichever thread triggers)                      *)
 (* Deviations of the pinned code are behind CONSTANTs (FixedDisableIrqLock, FixedVectorLock);   *)
@@ -64,6 +70,9 @@ CONSTANTS
     NDis,                 \* DSP-side writes of the disable-interrupt bits (0x0D4)
     NVec,                 \* DSP-side writes of the vector register of irq 14
     NCbSend,              \* SendData calls made from inside host data callbacks
+    HostKinds,            \* which calls besides SendData the host makes: subset of
+                          \* {"Empty", "PollRecv", "SemSet", "SemGet", "SemClr", "SemMask"}
+    NDspMask,             \* DSP-side writes of the semaphore mask register 0x0CE (MaskSemaphore on apbp_from_cpu)
     TrackLockset          \* maintain the lockset ghost (TRUE in model checking; FALSE in trace validation, where
                           \* locks are not observable and the ghost would only slow the search down)
 
@@ -128,8 +137,8 @@ NeedLock(op, rt) ==
       [] op.k = "SetDis"   -> IF FixedDisableIrqLock THEN ChLock(op.o, op.c) ELSE NoLock
       [] op.k \in {"Trig", "Ack", "GetReq", "SetEn"} -> IcuLock
       [] op.k = "SetVec"   -> IF FixedVectorLock THEN IcuLock ELSE NoLock
-      [] op.k \in {"SemSetA", "SemClr", "SemClrR", "SemGet", "SemMask", "SemGetMask", "SemSig"} -> SemLock(op.o)
-      [] OTHER -> NoLock                      \* SemSetC / Unlock release; Exch is an atomic
+      [] op.k \in {"SemSetA", "SemMaskA", "SemClr", "SemClrR", "SemGet", "SemGetMask", "SemSig"} -> SemLock(op.o)
+      [] OTHER -> NoLock                      \* SemSetC / SemMaskC / Unlock release; Exch is an atomic
 
 Enabled(S, t, op, rt) == CanLock(S, t, NeedLock(op, rt))
 
@@ -209,10 +218,23 @@ SemClrBits(S, t, o, bits, rt) ==
                     !.ls = Touch(S, t, SemLock(o), {<<"mask", o, 0>>}, {<<"sem", o, 0>>, <<"sig", o, 0>>})], rt, <<>>)
 SemGet(S, t, op, rt) ==
     R([S EXCEPT !.ls = Touch(S, t, SemLock(op.o), {<<"sem", op.o, 0>>}, {})], S.sem[op.o], <<>>)
-\* Apbp::MaskSemaphore only stores the mask (it neither recomputes the signal nor calls the handler;
-\* that is C14's finding D3 and is transcribed here as the code has it)
-SemMask(S, t, op, rt) ==
-    R([S EXCEPT !.mask[op.o] = op.v & SemFull, !.ls = Touch(S, t, SemLock(op.o), {}, {<<"mask", op.o, 0>>})], rt, <<>>)
+\* Apbp::MaskSemaphore (as repaired by bf7856c), first part: lock (kept), semaphore_mask = bits,
+\* new_signal = (semaphore & ~mask) != 0; the handler is called -- on the CALLING thread, mutex held --
+\* when new_signal && !semaphore_master_signal
+SemMaskA(S, t, op, rt) ==
+    LET o == op.o  l == SemLock(o)
+        m == op.v & SemFull
+        new == SemNew(S.sem[o], m)
+        call == new /\ ~ S.sig[o]
+        hnd == IF o = "fc" THEN Op("Trig", "fc", 0, 0) ELSE Op("CbSem", "fd", 0, 0)
+        S1 == [S EXCEPT !.mask[o] = m, !.held[l] = t,
+                        !.ls = Touch(S, t, l, {<<"sem", o, 0>>, <<"sig", o, 0>>}, {<<"mask", o, 0>>})]
+    IN  R(S1, rt, (IF call THEN <<hnd>> ELSE <<>>) \o <<Op("SemMaskC", o, 0, B2N(new))>>)
+\* ... last part: semaphore_master_signal = new_signal; unlock
+SemMaskC(S, t, op, rt) ==
+    LET o == op.o  l == SemLock(o)
+    IN  R([S EXCEPT !.sig[o] = (op.v = 1), !.ls = Touch(S, t, l, {}, {<<"sig", o, 0>>}),
+                    !.held[l] = "none"], rt, <<>>)
 SemGetMask(S, t, op, rt) ==
     R([S EXCEPT !.ls = Touch(S, t, SemLock(op.o), {<<"mask", op.o, 0>>}, {})], S.mask[op.o], <<>>)
 SemSig(S, t, op, rt) ==
@@ -223,7 +245,7 @@ Exch(S, t, op, rt) == R([S EXCEPT !.latch = FALSE], B2N(S.latch), <<>>)
 Unlock(S, t, op, rt) == R([S EXCEPT !.held[ChLock(op.o, op.c)] = "none"], rt, <<>>)
 
 SilentKinds == {"SendCS", "RecvCS", "IfRecvCS", "PeekCS", "ReadyCS", "GetDisCS", "SetDis", "Trig", "Ack", "GetReq",
-                "SetEn", "SetVec", "SemSetA", "SemSetC", "SemClr", "SemClrR", "SemGet", "SemMask", "SemGetMask",
+                "SetEn", "SetVec", "SemSetA", "SemSetC", "SemMaskA", "SemMaskC", "SemClr", "SemClrR", "SemGet", "SemGetMask",
                 "SemSig", "Exch", "Unlock"}
 
 Do(S, t, op, rt) ==
@@ -244,7 +266,8 @@ Do(S, t, op, rt) ==
       [] op.k = "SemClr"   -> SemClrBits(S, t, op.o, op.v, rt)
       [] op.k = "SemClrR"  -> SemClrBits(S, t, op.o, rt, rt)     \* ClearSemaphore(GetSemaphore())
       [] op.k = "SemGet"   -> SemGet(S, t, op, rt)
-      [] op.k = "SemMask"  -> SemMask(S, t, op, rt)
+      [] op.k = "SemMaskA" -> SemMaskA(S, t, op, rt)
+      [] op.k = "SemMaskC" -> SemMaskC(S, t, op, rt)
       [] op.k = "SemGetMask" -> SemGetMask(S, t, op, rt)
       [] op.k = "SemSig"   -> SemSig(S, t, op, rt)
       [] op.k = "Exch"     -> Exch(S, t, op, rt)
@@ -253,30 +276,56 @@ Do(S, t, op, rt) ==
 -----------------------------------------------------------------------------
 (* The two-thread state machine.                                              *)
 VARIABLES
-    S,        \* shared objects + ghosts
-    todo,     \* per thread: micro-operations still to run for the API call / MMIO access in progress
-    ret,      \* per thread: value returned by its last value-returning micro-operation
+    vS,       \* shared objects + ghosts           (v-prefixed: the operators above have parameters S, ret, ...)
+    vTodo,    \* per thread: micro-operations still to run for the API call / MMIO access in progress
+    vRet,     \* per thread: value returned by its last value-returning micro-operation
     hp,       \* host program state
     dp        \* DSP program state (guest registers: ie, ip, pc, status bits; budgets)
-vars == <<S, todo, ret, hp, dp>>
+vars == <<vS, vTodo, vRet, hp, dp>>
 
-\* run the first of `ops` now (one critical section = one step), keep the rest for later steps
-Start(t, ops, r) == /\ S' = r.S
-                    /\ ret' = [ret EXCEPT ![t] = r.ret]
-                    /\ todo' = [todo EXCEPT ![t] = r.fol \o ops]
-Micro(t) == /\ todo[t] # <<>>
-            /\ Head(todo[t]).k \in SilentKinds
-            /\ Enabled(S, t, Head(todo[t]), ret[t])
-            /\ Start(t, Tail(todo[t]), Do(S, t, Head(todo[t]), ret[t]))
+\* r = result of a micro-operation of thread t; `rest` = what the thread still has to do afterwards
+Commit(t, rest, r) == /\ vS' = r.S
+                      /\ vRet' = [vRet EXCEPT ![t] = r.ret]
+                      /\ vTodo' = [vTodo EXCEPT ![t] = r.fol \o rest]
+\* one critical section = one step
+Micro(t) == /\ vTodo[t] # <<>>
+            /\ Head(vTodo[t]).k \in SilentKinds
+            /\ Enabled(vS, t, Head(vTodo[t]), vRet[t])
+            /\ Commit(t, Tail(vTodo[t]), Do(vS, t, Head(vTodo[t]), vRet[t]))
 \* begin an API call / MMIO access whose first critical section is op
-Call(t, op, rest) == /\ todo[t] = <<>>
-                     /\ Enabled(S, t, op, ret[t])
-                     /\ Start(t, rest, Do(S, t, op, ret[t]))
+Call(t, op, rest) == /\ vTodo[t] = <<>>
+                     /\ Enabled(vS, t, op, vRet[t])
+                     /\ Commit(t, rest, Do(vS, t, op, vRet[t]))
 
-ChanSeq == CHOOSE s \in [1..Cardinality(Chans) -> Chans] : \A i, j \in DOMAIN s : i < j => s[i] < s[j]
+ChanSeq == CHOOSE q \in [1..Cardinality(Chans) -> Chans] : \A i, j \in DOMAIN q : i < j => q[i] < q[j]
 FirstChan == ChanSeq[1]
 NextChan(c) == LET i == CHOOSE j \in DOMAIN ChanSeq : ChanSeq[j] = c
                IN  IF i = Len(ChanSeq) THEN -1 ELSE ChanSeq[i + 1]
+
+\* ---------------- host callbacks.  They run on WHICHEVER THREAD made the call that fires them:
+\* the data callback of apbp_from_dsp on the DSP thread (inside the guest's write of 0x0C0+4c); the
+\* semaphore callback of apbp_from_dsp on the DSP thread (guest's write of 0x0CC) or on the HOST thread
+\* (Teakra::MaskSemaphore unmasking a pending semaphore) -- in both cases with the recursive semaphore
+\* mutex of apbp_from_dsp held by that thread.
+\* The data callback either calls RecvData or leaves the value for the host thread and calls GetSemaphore
+\* instead, and may call SendData (bounded); the semaphore callback polls and fetches channel FirstChan,
+\* then calls GetSemaphore and ClearSemaphore of what it read.
+CbSemBody == <<Op("ReadyCS", "fd", FirstChan, 0), Op("IfRecvCS", "fd", FirstChan, 0),
+               Op("SemGet", "fd", 0, 0), Op("SemClrR", "fd", 0, 0)>>
+CbDataBody(c, recv, snd) ==
+    (IF recv THEN <<Op("RecvCS", "fd", c, 0)>> ELSE <<Op("SemGet", "fd", 0, 0)>>)
+    \o (IF snd = 1 THEN <<Op("SendCS", "fc", c, NSend + dp.ncb + 1)>> ELSE <<>>)
+Callback(t) ==
+    /\ vTodo[t] # <<>>
+    /\ UNCHANGED <<vRet, hp>>
+    /\ \/ /\ Head(vTodo[t]).k = "CbData"
+          /\ vS' = [vS EXCEPT !.dlv["fd"] = @ + 1]
+          /\ \E recv \in BOOLEAN, snd \in {0} \cup (IF dp.ncb < NCbSend THEN {1} ELSE {}) :
+               /\ vTodo' = [vTodo EXCEPT ![t] = CbDataBody(Head(@).c, recv, snd) \o Tail(@)]
+               /\ dp' = [dp EXCEPT !.ncb = @ + snd]
+       \/ /\ Head(vTodo[t]).k = "CbSem"
+          /\ vTodo' = [vTodo EXCEPT ![t] = CbSemBody \o Tail(@)]
+          /\ UNCHANGED <<vS, dp>>
 
 \* ---------------- host thread
 \* hp.pc: "idle" | "drain";  hp.sent[c]: sends made;  hp.ops: other calls made;  hp.dc: drain cursor
@@ -285,21 +334,22 @@ HostInit == [pc |-> "idle", sent |-> [c \in Chans |-> 0], ops |-> 0, dc |-> Firs
 HSend(c) == /\ hp.pc = "idle" /\ hp.sent[c] < NSend
             /\ Call("h", Op("SendCS", "fc", c, hp.sent[c] + 1), <<>>)
             /\ hp' = [hp EXCEPT !.sent[c] = @ + 1]
-HOther(op, rest) == /\ hp.pc = "idle" /\ hp.ops < NHostOps
-                    /\ Call("h", op, rest)
-                    /\ hp' = [hp EXCEPT !.ops = @ + 1]
+HOther(kind, op, rest) == /\ kind \in HostKinds
+                          /\ hp.pc = "idle" /\ hp.ops < NHostOps
+                          /\ Call("h", op, rest)
+                          /\ hp' = [hp EXCEPT !.ops = @ + 1]
 HostCalls ==
     \/ \E c \in Chans : HSend(c)
-    \/ \E c \in Chans : HOther(Op("ReadyCS", "fc", c, 0), <<>>)                                \* SendDataIsEmpty
-    \/ \E c \in Chans : HOther(Op("ReadyCS", "fd", c, 0), <<Op("IfRecvCS", "fd", c, 0)>>)      \* RecvDataIsReady; RecvData
-    \/ \E b \in SemVals : HOther(Op("SemSetA", "fc", 0, b), <<>>)                              \* SetSemaphore
-    \/ HOther(Op("SemGet", "fd", 0, 0), <<>>)                                                  \* GetSemaphore
-    \/ \E b \in SemVals : HOther(Op("SemClr", "fd", 0, b), <<>>)                               \* ClearSemaphore
-    \/ \E b \in SemVals \cup {0} : HOther(Op("SemMask", "fd", 0, b), <<>>)                     \* MaskSemaphore
+    \/ \E c \in Chans : HOther("Empty", Op("ReadyCS", "fc", c, 0), <<>>)                                 \* SendDataIsEmpty
+    \/ \E c \in Chans : HOther("PollRecv", Op("ReadyCS", "fd", c, 0), <<Op("IfRecvCS", "fd", c, 0)>>)    \* RecvDataIsReady; RecvData
+    \/ \E b \in SemVals : HOther("SemSet", Op("SemSetA", "fc", 0, b), <<>>)                              \* SetSemaphore
+    \/ HOther("SemGet", Op("SemGet", "fd", 0, 0), <<>>)                                                  \* GetSemaphore
+    \/ \E b \in SemVals : HOther("SemClr", Op("SemClr", "fd", 0, b), <<>>)                               \* ClearSemaphore
+    \/ \E b \in SemVals \cup {0} : HOther("SemMask", Op("SemMaskA", "fd", 0, b), <<>>)                   \* MaskSemaphore
 \* the host may stop issuing calls at any time; from then on it only polls for replies, round robin
-HStop == /\ hp.pc = "idle" /\ todo["h"] = <<>>
+HStop == /\ hp.pc = "idle" /\ vTodo["h"] = <<>>
          /\ hp' = [hp EXCEPT !.pc = "drain"]
-         /\ UNCHANGED <<S, todo, ret, dp>>
+         /\ UNCHANGED <<vS, vTodo, vRet, dp>>
 HDrain == /\ hp.pc = "drain"
           /\ Call("h", Op("ReadyCS", "fd", hp.dc, 0), <<Op("IfRecvCS", "fd", hp.dc, 0)>>)
           /\ hp' = [hp EXCEPT !.dc = IF NextChan(@) = -1 THEN FirstChan ELSE NextChan(@)]
@@ -307,104 +357,89 @@ HostNext == \/ (Micro("h") /\ UNCHANGED <<hp, dp>>)
             \/ (HostCalls /\ UNCHANGED dp)
             \/ HStop
             \/ (HDrain /\ UNCHANGED dp)
+            \/ Callback("h")
 
 \* ---------------- DSP thread: the run loop (latch exchange at the top of every cycle, interrupt entry
 \* after an instruction) around a guest program = main loop (poll the status, fetch and echo what is
 \* ready, with interrupts off) + INT0 handler (ack the ICU, read the status, fetch and echo, forward the
 \* semaphore, reti).  pc values are <<label, channel>>.
 DspInit == [pc |-> <<"m_top", 0>>, ph |-> "L", ip |-> FALSE, ie |-> TRUE, rpc |-> <<"m_top", 0>>,
-            st |-> [c \in Chans |-> 0], sg |-> 0, ndis |-> 0, nvec |-> 0, ncb |-> 0]
+            st |-> [c \in Chans |-> 0], sg |-> 0, ndis |-> 0, nvec |-> 0, ncb |-> 0, nmask |-> 0]
 
 AfterChan(lbl, c, endlbl) == IF NextChan(c) = -1 THEN <<endlbl, 0>> ELSE <<lbl, NextChan(c)>>
 
-\* a guest instruction that makes the MMIO access `op`; pcf(r) is the next pc given the result
-GuestAccess(op, rest, dpf(_)) ==
-    /\ Enabled(S, "d", op, ret["d"])
-    /\ LET r == Do(S, "d", op, ret["d"]) IN Start("d", rest, r) /\ dp' = dpf(r)
-GuestLocal(newdp) == dp' = newdp /\ UNCHANGED <<S, todo, ret>>
+\* a guest instruction that makes the MMIO access `op`; dpf(d, r) is the next guest state given the
+\* state d after the cycle bookkeeping and the result r of the access
+GuestCommit(rest, r, dpf(_, _)) == Commit("d", rest, r) /\ dp' = dpf([dp EXCEPT !.ph = "L"], r)
+GuestAccess(op, rest, dpf(_, _)) ==
+    /\ Enabled(vS, "d", op, vRet["d"])
+    /\ GuestCommit(rest, Do(vS, "d", op, vRet["d"]), dpf)
+GuestLocal(newdp) == dp' = [newdp EXCEPT !.ph = "L"] /\ UNCHANGED <<vS, vTodo, vRet>>
+GuestGo(op, pc) == /\ Enabled(vS, "d", op, vRet["d"])                 \* an access after which the guest simply goes on at pc
+                   /\ Commit("d", <<>>, Do(vS, "d", op, vRet["d"]))
+                   /\ dp' = [dp EXCEPT !.ph = "L", !.pc = pc]
 
-DLatch == /\ todo["d"] = <<>> /\ dp.ph = "L"
-          /\ S' = [S EXCEPT !.latch = FALSE]                         \* interrupt_pending[0].exchange(false)
-          /\ dp' = [dp EXCEPT !.ip = @ \/ S.latch, !.ph = "E"]
-          /\ UNCHANGED <<todo, ret, hp>>
+DLatch == /\ vTodo["d"] = <<>> /\ dp.ph = "L"
+          /\ vS' = [vS EXCEPT !.latch = FALSE]                         \* interrupt_pending[0].exchange(false)
+          /\ dp' = [dp EXCEPT !.ip = @ \/ vS.latch, !.ph = "E"]
+          /\ UNCHANGED <<vTodo, vRet, hp>>
+
+DInstr(lbl, c) ==
+    CASE lbl = "m_top" ->
+           \/ GuestLocal([dp EXCEPT !.ie = FALSE, !.pc = <<"m_rdy", FirstChan>>])              \* dint
+           \/ /\ dp.ndis < NDis                                                                \* write 0x0D4
+              /\ \E b \in {0, 1} :
+                   GuestAccess(Op("SetDis", "fc", FirstChan, b),
+                               [cc \in 1..(Len(ChanSeq) - 1) |-> Op("SetDis", "fc", ChanSeq[cc + 1], b)],
+                               LAMBDA d, r : [d EXCEPT !.ndis = @ + 1])
+           \/ /\ dp.nvec < NVec                                                                \* write 0x24C
+              /\ GuestAccess(Op("SetVec", "icu", 0, dp.nvec + 1), <<>>, LAMBDA d, r : [d EXCEPT !.nvec = @ + 1])
+           \/ /\ dp.nmask < NDspMask                                                           \* write 0x0CE
+              /\ \E b \in SemVals \cup {0} :
+                   GuestAccess(Op("SemMaskA", "fc", 0, b), <<>>, LAMBDA d, r : [d EXCEPT !.nmask = @ + 1])
+      [] lbl = "m_rdy" -> GuestAccess(Op("ReadyCS", "fc", c, 0), <<>>,
+                             LAMBDA d, r : [d EXCEPT !.pc = IF r.ret = 1 THEN <<"m_rcv", c>> ELSE AfterChan("m_rdy", c, "m_sig")])
+      [] lbl = "m_rcv" -> GuestGo(Op("RecvCS", "fc", c, 0), <<"m_snd", c>>)
+      [] lbl = "m_snd" -> GuestGo(Op("SendCS", "fd", c, vRet["d"]), AfterChan("m_rdy", c, "m_sig"))
+      [] lbl = "m_sig" -> GuestAccess(Op("SemSig", "fc", 0, 0), <<>>,
+                             LAMBDA d, r : [d EXCEPT !.pc = IF r.ret = 1 THEN <<"m_sget", 0>> ELSE <<"m_end", 0>>])
+      [] lbl = "m_sget" -> GuestGo(Op("SemGet", "fc", 0, 0), <<"m_sclr", 0>>)
+      [] lbl = "m_sclr" -> GuestGo(Op("SemClrR", "fc", 0, 0), <<"m_sset", 0>>)
+      [] lbl = "m_sset" -> GuestGo(Op("SemSetA", "fd", 0, vRet["d"]), <<"m_end", 0>>)
+      [] lbl = "m_end" -> GuestLocal([dp EXCEPT !.ie = TRUE, !.pc = <<"m_top", 0>>])           \* eint
+      \* INT0 handler
+      [] lbl = "h_ack" -> GuestGo(Op("Ack", "icu", 0, 0), <<"h_st", FirstChan>>)
+      [] lbl = "h_st"  -> GuestAccess(Op("ReadyCS", "fc", c, 0), <<>>,                         \* status word 0x0D6 ...
+                             LAMBDA d, r : [d EXCEPT !.st[c] = r.ret, !.pc = AfterChan("h_st", c, "h_sg")])
+      [] lbl = "h_sg"  -> GuestAccess(Op("SemSig", "fc", 0, 0), <<>>,                          \* ... is several locked reads
+                             LAMBDA d, r : [d EXCEPT !.sg = r.ret, !.pc = <<"h_rcv", FirstChan>>])
+      [] lbl = "h_rcv" -> IF dp.st[c] = 1
+                          THEN GuestGo(Op("RecvCS", "fc", c, 0), <<"h_snd", c>>)
+                          ELSE GuestLocal([dp EXCEPT !.pc = AfterChan("h_rcv", c, "h_sem")])
+      [] lbl = "h_snd" -> GuestGo(Op("SendCS", "fd", c, vRet["d"]), AfterChan("h_rcv", c, "h_sem"))
+      [] lbl = "h_sem" -> IF dp.sg = 1
+                          THEN GuestGo(Op("SemGet", "fc", 0, 0), <<"h_sclr", 0>>)
+                          ELSE GuestLocal([dp EXCEPT !.pc = <<"h_reti", 0>>])
+      [] lbl = "h_sclr" -> GuestGo(Op("SemClrR", "fc", 0, 0), <<"h_sset", 0>>)
+      [] lbl = "h_sset" -> GuestGo(Op("SemSetA", "fd", 0, vRet["d"]), <<"h_reti", 0>>)
+      [] lbl = "h_reti" -> GuestLocal([dp EXCEPT !.ie = TRUE, !.pc = dp.rpc])
 
 DExec ==
-    /\ todo["d"] = <<>> /\ dp.ph = "E"
+    /\ vTodo["d"] = <<>> /\ dp.ph = "E"
     /\ UNCHANGED hp
-    /\ LET d == [dp EXCEPT !.ph = "L"]
-           lbl == dp.pc[1]
-           c == dp.pc[2]
-       IN
-       IF dp.ie /\ dp.ip
+    /\ IF dp.ie /\ dp.ip
        THEN \* interrupt entry: ip = 0, ie = 0, push pc, pc = 0x0006
-            GuestLocal([d EXCEPT !.ip = FALSE, !.ie = FALSE, !.rpc = dp.pc, !.pc = <<"h_ack", 0>>])
-       ELSE
-       CASE lbl = "m_top" ->
-              \/ GuestLocal([d EXCEPT !.ie = FALSE, !.pc = <<"m_rdy", FirstChan>>])              \* dint
-              \/ /\ dp.ndis < NDis                                                               \* write 0x0D4
-                 /\ \E b \in {0, 1} :
-                      GuestAccess(Op("SetDis", "fc", FirstChan, b),
-                                  [cc \in 1..(Len(ChanSeq) - 1) |-> Op("SetDis", "fc", ChanSeq[cc + 1], b)],
-                                  LAMBDA r : [d EXCEPT !.ndis = @ + 1])
-              \/ /\ dp.nvec < NVec                                                               \* write 0x24C
-                 /\ GuestAccess(Op("SetVec", "icu", 0, dp.nvec + 1), <<>>, LAMBDA r : [d EXCEPT !.nvec = @ + 1])
-         [] lbl = "m_rdy" -> GuestAccess(Op("ReadyCS", "fc", c, 0), <<>>,
-                                LAMBDA r : [d EXCEPT !.pc = IF r.ret = 1 THEN <<"m_rcv", c>> ELSE AfterChan("m_rdy", c, "m_sig")])
-         [] lbl = "m_rcv" -> GuestAccess(Op("RecvCS", "fc", c, 0), <<>>, LAMBDA r : [d EXCEPT !.pc = <<"m_snd", c>>])
-         [] lbl = "m_snd" -> GuestAccess(Op("SendCS", "fd", c, ret["d"]), <<>>,
-                                LAMBDA r : [d EXCEPT !.pc = AfterChan("m_rdy", c, "m_sig")])
-         [] lbl = "m_sig" -> GuestAccess(Op("SemSig", "fc", 0, 0), <<>>,
-                                LAMBDA r : [d EXCEPT !.pc = IF r.ret = 1 THEN <<"m_sget", 0>> ELSE <<"m_end", 0>>])
-         [] lbl = "m_sget" -> GuestAccess(Op("SemGet", "fc", 0, 0), <<>>, LAMBDA r : [d EXCEPT !.pc = <<"m_sclr", 0>>])
-         [] lbl = "m_sclr" -> GuestAccess(Op("SemClrR", "fc", 0, 0), <<>>, LAMBDA r : [d EXCEPT !.pc = <<"m_sset", 0>>])
-         [] lbl = "m_sset" -> GuestAccess(Op("SemSetA", "fd", 0, ret["d"]), <<>>, LAMBDA r : [d EXCEPT !.pc = <<"m_end", 0>>])
-         [] lbl = "m_end" -> GuestLocal([d EXCEPT !.ie = TRUE, !.pc = <<"m_top", 0>>])           \* eint
-         \* INT0 handler
-         [] lbl = "h_ack" -> GuestAccess(Op("Ack", "icu", 0, 0), <<>>, LAMBDA r : [d EXCEPT !.pc = <<"h_st", FirstChan>>])
-         [] lbl = "h_st"  -> GuestAccess(Op("ReadyCS", "fc", c, 0), <<>>,                        \* status word 0x0D6 ...
-                                LAMBDA r : [d EXCEPT !.st[c] = r.ret, !.pc = AfterChan("h_st", c, "h_sg")])
-         [] lbl = "h_sg"  -> GuestAccess(Op("SemSig", "fc", 0, 0), <<>>,                         \* ... is several locked reads
-                                LAMBDA r : [d EXCEPT !.sg = r.ret, !.pc = <<"h_rcv", FirstChan>>])
-         [] lbl = "h_rcv" -> IF dp.st[c] = 1
-                             THEN GuestAccess(Op("RecvCS", "fc", c, 0), <<>>, LAMBDA r : [d EXCEPT !.pc = <<"h_snd", c>>])
-                             ELSE GuestLocal([d EXCEPT !.pc = AfterChan("h_rcv", c, "h_sem")])
-         [] lbl = "h_snd" -> GuestAccess(Op("SendCS", "fd", c, ret["d"]), <<>>,
-                                LAMBDA r : [d EXCEPT !.pc = AfterChan("h_rcv", c, "h_sem")])
-         [] lbl = "h_sem" -> IF dp.sg = 1
-                             THEN GuestAccess(Op("SemGet", "fc", 0, 0), <<>>, LAMBDA r : [d EXCEPT !.pc = <<"h_sclr", 0>>])
-                             ELSE GuestLocal([d EXCEPT !.pc = <<"h_reti", 0>>])
-         [] lbl = "h_sclr" -> GuestAccess(Op("SemClrR", "fc", 0, 0), <<>>, LAMBDA r : [d EXCEPT !.pc = <<"h_sset", 0>>])
-         [] lbl = "h_sset" -> GuestAccess(Op("SemSetA", "fd", 0, ret["d"]), <<>>, LAMBDA r : [d EXCEPT !.pc = <<"h_reti", 0>>])
-         [] lbl = "h_reti" -> GuestLocal([d EXCEPT !.ie = TRUE, !.pc = dp.rpc])
-
-\* host callbacks, run by the DSP thread in the middle of the guest's write.  The data callback either
-\* calls RecvData or leaves the value for the host thread and calls GetSemaphore instead, and may call
-\* SendData (bounded); the semaphore callback (semaphore mutex of fd held by this thread) calls
-\* GetSemaphore and ClearSemaphore of what it read.
-DCallback ==
-    /\ todo["d"] # <<>>
-    /\ UNCHANGED <<ret, hp>>
-    /\ LET op == Head(todo["d"])  rest == Tail(todo["d"]) IN
-       \/ /\ op.k = "CbData"
-          /\ S' = [S EXCEPT !.dlv["fd"] = @ + 1]
-          /\ \E recv \in BOOLEAN, snd \in {0} \cup (IF dp.ncb < NCbSend THEN {1} ELSE {}) :
-               /\ todo' = [todo EXCEPT !["d"] =
-                             (IF recv THEN <<Op("RecvCS", "fd", op.c, 0)>> ELSE <<Op("SemGet", "fd", 0, 0)>>)
-                             \o (IF snd = 1 THEN <<Op("SendCS", "fc", op.c, NSend + dp.ncb + 1)>> ELSE <<>>)
-                             \o rest]
-               /\ dp' = [dp EXCEPT !.ncb = @ + snd]
-       \/ /\ op.k = "CbSem"
-          /\ todo' = [todo EXCEPT !["d"] = <<Op("SemGet", "fd", 0, 0), Op("SemClrR", "fd", 0, 0)>> \o rest]
-          /\ UNCHANGED <<S, dp>>
+            GuestLocal([dp EXCEPT !.ip = FALSE, !.ie = FALSE, !.rpc = dp.pc, !.pc = <<"h_ack", 0>>])
+       ELSE DInstr(dp.pc[1], dp.pc[2])
 
 DspNext == \/ (Micro("d") /\ UNCHANGED <<hp, dp>>)
            \/ DLatch
            \/ DExec
-           \/ DCallback
+           \/ Callback("d")
 
-Init == /\ S = InitS(TRUE, VectoredOn)          \* guest initialisation (ICU enable, ie, im0) already done
-        /\ todo = [t \in Threads |-> <<>>]
-        /\ ret = [t \in Threads |-> 0]
+Init == /\ vS = InitS(TRUE, VectoredOn)         \* guest initialisation (ICU enable, ie, im0) already done
+        /\ vTodo = [t \in Threads |-> <<>>]
+        /\ vRet = [t \in Threads |-> 0]
         /\ hp = HostInit
         /\ dp = DspInit
 Next == HostNext \/ DspNext
@@ -415,34 +450,34 @@ FairSpec == Spec /\ WF_vars(HostNext) /\ WF_vars(DspNext)
 (* Property layer (C19)                                                      *)
 
 \* (a) every value received was sent on that channel, (b) in send order (never reordered or invented)
-ValuesOK == S.bad = {}
+ValuesOK == vS.bad = {}
 
 \* (f) locking discipline: a variable that both threads access, at least one of them writing, has a
 \* common lock over all its accesses (the atomics latch/vlatch are not in Vars)
-RacyVars == {x \in Vars : Cardinality(S.ls[x].thr) = 2 /\ S.ls[x].wr /\ S.ls[x].lk = {}}
+RacyVars == {x \in Vars : Cardinality(vS.ls[x].thr) = 2 /\ vS.ls[x].wr /\ vS.ls[x].lk = {}}
 LocksetOK == RacyVars = {}
 
 \* (e) nobody waits for a lock in a cycle (two threads: on itself, or on a thread that is itself blocked)
-Need(t) == IF todo[t] # <<>> /\ Head(todo[t]).k \in SilentKinds THEN NeedLock(Head(todo[t]), ret[t]) ELSE NoLock
-Blocked(t) == ~ CanLock(S, t, Need(t))
-NoDeadlock == \A t \in Threads : Blocked(t) => (S.held[Need(t)] # t /\ ~ Blocked(S.held[Need(t)]))
+Need(t) == IF vTodo[t] # <<>> /\ Head(vTodo[t]).k \in SilentKinds THEN NeedLock(Head(vTodo[t]), vRet[t]) ELSE NoLock
+Blocked(t) == ~ CanLock(vS, t, Need(t))
+NoDeadlock == \A t \in Threads : Blocked(t) => (vS.held[Need(t)] # t /\ ~ Blocked(vS.held[Need(t)]))
 
 \* locks are only ever held across micro-operations in the documented places
-HeldOK == \A l \in Locks : S.held[l] # "none" =>
-             \/ Recursive(l) /\ todo[S.held[l]] # <<>>
-             \/ HandlerInsideLock /\ l[1] = "ch" /\ todo[S.held[l]] # <<>>
+HeldOK == \A l \in Locks : vS.held[l] # "none" =>
+             \/ Recursive(l) /\ vTodo[vS.held[l]] # <<>>
+             \/ HandlerInsideLock /\ l[1] = "ch" /\ vTodo[vS.held[l]] # <<>>
 
 \* (d) safety half: a delivery is never counted without a send that owed it; the delivery on the DSP
 \* side is the ICU request bit and, when irq 14 is routed, the interpreter latch
-OwedSafe == \A o \in Objs : S.dlv[o] <= S.own[o]
-TrigDelivers == [][S'.dlv["fc"] > S.dlv["fc"] => (S'.req /\ (S.en => S'.latch))]_vars
+OwedSafe == \A o \in Objs : vS.dlv[o] <= vS.own[o]
+TrigDelivers == [][vS'.dlv["fc"] > vS.dlv["fc"] => (vS'.req /\ (vS.en => vS'.latch))]_vars
 
 MaxOwn == Cardinality(Chans) * NSend + NCbSend
 \* (d) liveness half: every send that found interrupts enabled is followed by the handler call
-HandlerOwed == \A o \in Objs : \A n \in 1..MaxOwn : (S.own[o] >= n) ~> (S.dlv[o] >= n)
+HandlerOwed == \A o \in Objs : \A n \in 1..MaxOwn : (vS.own[o] >= n) ~> (vS.dlv[o] >= n)
 \* ... the latch is consumed by the run loop and the interrupt is taken
-LatchConsumed == S.latch ~> ~ S.latch
+LatchConsumed == vS.latch ~> ~ vS.latch
 IrqTaken == dp.ip ~> (dp.pc = <<"h_ack", 0>>)
 \* (c) the last value sent is eventually observed (and stays observed: sends are finitely many)
-LastSeen == \A o \in Objs : \A c \in Chans : <>[](S.rcv[o][c] = S.sn[o][c])
+LastSeen == \A o \in Objs : \A c \in Chans : <>[](vS.rcv[o][c] = vS.sn[o][c])
 =============================================================================
